@@ -487,7 +487,7 @@ REUSE_OBJS = {
     "builder-h5": ["net", "simple", "bad", "noembed"],     # a new NeuroMLHdf5Parser per file, one NetworkBuilder
 }
 REUSE_ENTRIES = ["reuse:%s:%s" % (o, f) for o, fs in REUSE_OBJS.items() for f in fs]
-# which open finding a difference of a reuse entry belongs to (a difference of any other entry is a violation)
+# the oracle key of a difference of a reuse entry (repaired by fixes/C07-parser-builder-reuse.patch: a VIOLATION now)
 REUSE_KEY = {"xml-same": "NetworkBuilder", "builder-h5": "NetworkBuilder", "h5-fresh": "NeuroMLHdf5Parser",
              "h5-opt": "NeuroMLHdf5Parser", "h5-same": "NeuroMLHdf5Parser+NetworkBuilder",
              "xml-fresh": "NeuroMLXMLParser"}
@@ -2025,14 +2025,14 @@ CORPUS = [
         ["load", "B", "NeuroMLXMLParser+NetworkBuilder[includes]"], ["load", "A", "read_neuroml2_file[netinc]"],
         ["load", "A", "NeuroMLXMLParser+NetworkBuilder[includes]"]]}},
     # ---- second pass
-    # one builder, two documents: the second refers to a population only the first declares (open finding
+    # regression (fixed finding): one builder, two documents: the second refers to a population only the first declares (
     # C07:reuse:NetworkBuilder); the same files through a reused XML parser with a NEW builder per file are fine
     {"kind": "history", "session": {"seeds": {"A": 2, "B": 5}, "steps": [
         ["load", "A", "reuse:xml-same:net"], ["load", "A", "reuse:xml-same:bad"], ["load", "B", "reuse:xml-same:net"],
         ["load", "A", "reuse:xml-fresh:net"], ["load", "A", "reuse:xml-fresh:bad"], ["load", "B", "reuse:xml-fresh:expl"],
         ["load", "A", "reuse:builder-h5:net"], ["load", "A", "reuse:builder-h5:bad"]]}},
     # one HDF5 parser object, several files: embedded XML / network of an earlier file leak into a file that has none
-    # (open findings C07:reuse:NeuroMLHdf5Parser, C07:reuse:NeuroMLHdf5Parser+NetworkBuilder)
+    # (regression: fixed findings C07:reuse:NeuroMLHdf5Parser, C07:reuse:NeuroMLHdf5Parser+NetworkBuilder)
     {"kind": "history", "session": {"seeds": {"A": 2, "B": 5}, "steps": [
         ["load", "A", "reuse:h5-fresh:simple"], ["load", "A", "reuse:h5-fresh:noembed"],
         ["load", "B", "reuse:h5-opt:simple"], ["load", "A", "reuse:h5-opt:noembed"], ["load", "A", "reuse:h5-opt:nonet"],
